@@ -324,6 +324,15 @@ class C02Clauses(IdentityTable):
             return None
         if mval is None or name in ("convert", "parse"):
             return None
+        if kind == "qty" and (
+                (name == "load" and not str((info.get("_blob") or {}).get("codec", "")).startswith("pickle")) or
+                (name == "roundtrip" and str(op.get("codec", "")).startswith("json"))):
+            # a quantity's JSON / SQL form carries str(unit): text, where the library deliberately
+            # maps e.g. "kg" to the named kilogram - that round trip is C13/C15's subject, not an
+            # expression over units
+            if "id" in op:
+                I.mvals[op["id"]] = I.nf_of(value.unit)
+            return None
         return self.check_value(op, kind, value, mval, rec, name)
 
     def predict(self, op, prepared):
